@@ -2,6 +2,8 @@ package main
 
 import (
 	"fmt"
+	nurl "net/url"
+	"strings"
 
 	"verifsim/gen"
 	"verifsim/plan"
@@ -339,6 +341,27 @@ func (c *Check) c13Variant(run int, seed uint64, d gen.GenDoc, url string, algo 
 	case "Apply":
 		p.Trees = []plan.Tree{{ID: "t0", Doc: "d0", Root: "document"}}
 		p.Tasks = [][]plan.Op{{{Op: "Apply", Tree: "t0", Opt: "o0"}}}
+	case "URL":
+		// the page URL is the requested address; the caller's OriginalURL (if any) must be ignored
+		ct := "text/html; charset=utf-8"
+		req := url
+		if req == "" || !strings.HasPrefix(req, "http") {
+			req = "http://example.com/story/page/2"
+		}
+		// an address that is requested has no fragment; whether "#" would be kept
+		// literally or split off is not something the property states
+		if i := strings.Index(req, "#"); i >= 0 {
+			req = req[:i]
+		}
+		if u, err := nurl.ParseRequestURI(req); err != nil || u.Host == "" {
+			req = "http://example.com/story/page/2"
+		}
+		if run%2 == 1 {
+			p.Options[0].URL = sp("http://decoy.example.net/ignored")
+		} else {
+			p.Options[0].URL = nil
+		}
+		p.Tasks = [][]plan.Op{{{Op: "URL", Doc: "d0", Opt: "o0", URL: req, Net: &plan.NetPlan{Status: 200, CType: &ct, StallAt: -1}}}}
 	default:
 		p.Tasks = [][]plan.Op{{{Op: entry, Doc: "d0", Opt: "o0"}}}
 	}
@@ -372,7 +395,11 @@ func (c *Check) fixedC13() []*plan.Plan {
 				if k%3 == 0 {
 					stalls = [][2]int64{{int64(50 + 37*k), 1_000_000_137}, {int64(900 + 11*k), 3_600_000_000_731}}
 				}
-				out = append(out, c.c13Variant(run, uint64(di), d, u, algo, skip, flags, sink, stalls, "Apply"))
+				entry := "Apply"
+				if k%4 == 3 {
+					entry = "URL"
+				}
+				out = append(out, c.c13Variant(run, uint64(di), d, u, algo, skip, flags, sink, stalls, entry))
 				run++
 				k++
 			}
@@ -409,7 +436,7 @@ func (c *Check) randC13(r *gen.Rand, run int, seed uint64) *plan.Plan {
 		stalls = gen.RandStalls(r, 4000)
 	}
 	algo := uint(r.Intn(2))
-	entry := gen.Pick(r, []string{"Apply", "Apply", "Reader", "File"})
+	entry := gen.Pick(r, []string{"Apply", "Apply", "Reader", "File", "URL"})
 	return c.c13Variant(run, seed, d, url, algo, r.P(1, 5), flags, sink, stalls, entry)
 }
 
@@ -571,7 +598,11 @@ func (c *Check) pagerPlan(r *gen.Rand, run int, seed uint64, mapOrder bool) *pla
 		id := fmt.Sprintf("d%d", i)
 		p.Docs = append(p.Docs, plan.NewDoc(id, d.Bytes, d.Origin))
 		t := plan.Tree{ID: "t" + id, Doc: id, Root: "document"}
-		if r.P(1, 5) {
+		switch r.Intn(8) {
+		case 0, 1:
+			t.Root = "node:4" // the article container (the pager may continue after it)
+			t.Detached = r.P(1, 3)
+		case 2:
 			t.Root = fmt.Sprintf("node:%d", r.Intn(12))
 			t.Detached = r.Bool()
 		}
